@@ -26,6 +26,9 @@ def run(ctx):
         # directed: EVERY history of 4 calls on one account with one storage key and one snapshot slot (contains
         # snapshot-before-the-first-storage-write / write / Reset / read for an absent and for a balance-only account)
         allb += ctx.behaviours("state", "Gen_WorldState", "Gen_WorldState_dir.cfg", timeout=1800)
+        # directed: EVERY history of 6 calls over {SetBalance 0/1, GetSnapshot into slot 2, Reset to slot 1 (the empty state)
+        # or slot 2} on one world state object: several resets between snapshots taken at different points, then emptying
+        allb += ctx.behaviours("state", "Gen_WorldState", "Gen_WorldState_dir2.cfg", timeout=1800)
         if not ctx.quick():
             allb += ctx.behaviours("state", "Gen_WorldState", "Gen_WorldState.cfg", constants={"MaxOps": 2, "Depth": 2,
                                    "Accts": '{"a", "b"}', "MaxSnaps": 1}, timeout=1800)
